@@ -120,8 +120,20 @@ func refMessage(mx, my pref.Message, t tol) bool {
 		if ignored(fd) {
 			continue
 		}
+		// a field with explicit presence (message, optional, oneof member) is unset or set; a proto3 scalar
+		// without presence has no "unset": its zero IS its value and takes part in a tolerance like any other
+		// populated on one side only is a difference, as for protobuf equality (which tells -0 from an unset
+		// +0 that way) - except under a tolerance for that kind of value: a proto3 float has no "unset", the
+		// unpopulated side holds 0, and 0 takes part in the tolerance like any other value
 		if mx.Has(fd) != my.Has(fd) {
-			return false
+			isFloat := fd.Kind() == pref.FloatKind || fd.Kind() == pref.DoubleKind
+			if fd.HasPresence() || fd.IsList() || fd.IsMap() || !(t.float && isFloat) {
+				return false
+			}
+			if !floatWithin(mx.Get(fd).Float(), my.Get(fd).Float(), t) {
+				return false
+			}
+			continue
 		}
 		if !mx.Has(fd) {
 			continue
@@ -272,6 +284,8 @@ func muts() []mut {
 		{"bytes=[2]", tm(func(t *T) { t.DefaultBytes = []byte{2} })},
 		{"float=+0", tm(func(t *T) { t.DefaultFloat = 0 })},
 		{"float=-0", tm(func(t *T) { t.DefaultFloat = float32(math.Copysign(0, -1)) })},
+		{"float=0.0625", tm(func(t *T) { t.DefaultFloat = 0.0625 })}, // within tolerance of the zero value: unset vs set
+		{"float=0.25", tm(func(t *T) { t.DefaultFloat = 0.25 })},
 		{"float=1.5", tm(func(t *T) { t.DefaultFloat = 1.5 })},
 		{"float=1.5625", tm(func(t *T) { t.DefaultFloat = 1.5625 })},
 		{"float=1.75", tm(func(t *T) { t.DefaultFloat = 1.75 })},
